@@ -115,6 +115,10 @@ def name(p, pre):
 
 
 def render_fp(fp, pre=('a', 'b')):
+    if fp['kind'] == 'E' and fp['ren']:
+        # an error in the middle of a step: a rename whose new name is a directory (zdir, made by materialise) cannot be loaded
+        o = nbytes(conc(fp['old']))
+        return b'diff --git ' + name(fp['old'], pre[0]) + b' ' + pre[1].encode() + b'/zdir\nrename from ' + o + b'\nrename to zdir\n'
     if fp['kind'] == 'E':
         # refused with an error: the new name leaves the working tree (the old name keeps it with that file's worker)
         o, n = name(fp['old'], pre[0]), name(fp['old'], pre[1] + '/..')
@@ -145,11 +149,17 @@ def patch_name(i):
     return 'p%d.patch' % i
 
 
+def has_zdir(series):
+    return any(fp['kind'] == 'E' and fp['ren'] for pt in series for fp in pt['fps'])
+
+
 def materialise(w, tree0, series, series_opts=None, strip_pre=('a', 'b')):
     SPELL[1] = 0            # the same scenario is always spelled the same way
     for p, f in tree0.items():
         if f['ex']:
             ws.write(w, conc(p), content(f['cells']), int(f['mode'], 8) if f['mode'] != 'none' else 0o644)
+    if has_zdir(series):
+        ws.write(w, 'zdir/keep', b'keep\n')
     lines = []
     for i, pt in enumerate(series, 1):
         ws.write(w, 'patches/' + patch_name(i), b''.join(render_fp(fp, strip_pre) for fp in pt['fps']))
@@ -177,6 +187,8 @@ def expected_files(out, series, first=0, applied_before=()):
     for p, f in out['tree'].items():
         if f['ex']:
             exp[conc(p)] = (content(f['cells']), int(f['mode'], 8) if f['mode'] != 'none' else 0o644)
+    if has_zdir(series):
+        exp['zdir/keep'] = (b'keep\n', 0o644)
     for b in out['backups']:
         exp['.pc/%s/%s' % (patch_name(b['patch']), conc(b['path']))] = (content(b['cells']),
                                                                   int(b['mode'], 8) if b['mode'] != 'none' else None)
